@@ -12,6 +12,7 @@ EXPLANATION = ('A commit that dereferences a tree is planned (Log::begin_record)
                'shrunk, so a client handle and the planner always share one lock per tree; deferral re-publishes under the new id before cleaning the old '
                'id, under one overlay guard, with the queue mutex held, and does not consume the change lists it re-queues; to_dereference counters are '
                'decremented only on the not-deferred path.')
+EXPLANATION += ' Added: the registry only grows; every inserted tree is checked against pending removals where the commit is queued, under the queue lock; the queue scan is reached whatever the reader state; a deferral re-queues only the removals and what waits carries no used_trees mark; known findings F21 (check-then-lock) and F49 (later writers of the same root overtake a waiting removal); thorough tier: a tree is read only through the reader lock (compile-fail witness).'
 ASSUMPTIONS = ['DECLINED clause: "the final state equals applying all transactions in the order their commit calls returned" - defer_commit re-queues the whole '
                'transaction behind later ones; whether that changes an outcome depends on the history (note N3)', 'unwind edges ignored']
 TRUSTED = ['rustc MIR construction (nightly)', 'pdb-facts driver', 'rule engine /verif/rules', 'anchor tables in props/C11.py']
